@@ -7,6 +7,18 @@ namespace Netpoll.Buf
 
 variable {α : Type}
 
+theorem drop_succ_of_drop_eq_cons {β : Type} {l : List β} {i : Nat} {a : β} {t : List β}
+    (h : l.drop i = a :: t) : l.drop (i + 1) = t := by
+  have := congrArg List.tail h
+  simpa using this
+
+theorem set_of_drop_eq_cons {β : Type} {l : List β} {i : Nat} {a : β} {t : List β}
+    (h : l.drop i = a :: t) (x : β) : l.set i x = l.take i ++ x :: t := by
+  have hlt : i < l.length := by
+    apply Nat.lt_of_not_le; intro hle
+    rw [List.drop_eq_nil_of_le hle] at h; cases h
+  rw [List.set_eq_take_append_cons_drop, if_pos hlt, drop_succ_of_drop_eq_cons h]
+
 theorem LB.abs_eq (b : LB α) : b.abs = absL (b.nodes.drop b.r) := rfl
 
 theorem skipEmptySN_spec (ns : List (Node α)) (r f n : Nat) (hrf : r ≤ f) (hn : 0 < n)
